@@ -30,6 +30,36 @@ def expect_ts(t, now, thr, c):
     return t >= c and (thr <= 0 or t - now < thr)
 
 
+def global_threshold_history(F, res=None):
+    """the interpreter-wide thresholds (functions.flags['ts_threshold' / 'epoch_threshold'], the documented configuration knob)
+    govern every later run that does not override them - also when other scripts ran before the operator changed them"""
+    saved = dict(F.flags)
+    hist_bad = []
+    try:
+        with vmrun.Env(vmrun.Cfg(now=vmrun.NOW)) as env:
+            now = vmrun.NOW
+            def one(t, c, kind):
+                cache = {'timestamp': t} if kind == 'ts' else {}
+                script = G.push(c.to_bytes(5, 'big')) + op('CHECK_TIMESTAMP' if kind == 'ts' else 'CHECK_EPOCH')
+                try:
+                    _, st, _ = F.run_script(script, cache)
+                    return st.list()[-1] == b'\xff'
+                except BaseException as e:
+                    return 'RAISED:' + type(e).__name__
+            one(now, now, 'ts'); one(now, now, 'ep')                      # ordinary runs first
+            for thr in (0, 5, 60, 3600, 1):
+                F.flags['ts_threshold'] = thr; F.flags['epoch_threshold'] = thr
+                for dt in (0, 1, 4, 5, 6, 59, 60, 61, 3599, 3600, 3601):
+                    if res is not None: res.note_case(('global-threshold', thr, dt))
+                    got = one(now + dt, now, 'ts'); want = expect_ts(now + dt, now, thr, now)
+                    if got != want: hist_bad.append(('CHECK_TIMESTAMP', thr, dt, want, got))
+                    got = one(0, now + dt, 'ep'); want = dt < thr
+                    if got != want: hist_bad.append(('CHECK_EPOCH', thr, dt, want, got))
+    finally:
+        F.flags.clear(); F.flags.update(saved)
+    return hist_bad
+
+
 def run(ctx: Ctx) -> Result:
     res = Result(rule=RULE)
     known = known_ids('C16')
@@ -177,11 +207,19 @@ def run(ctx: Ctx) -> Result:
     res.stats['cases_per_kind'] = kinds
     res.stats['K1_grid_points'] = k1
     res.stats['search'] = 'every grid point is judged on the implementation alone by the documented formula'
+    hist_bad = global_threshold_history(F, res)
+    for kind, thr, dt, want, got in hist_bad[:5]:
+        res.violations.append({'input': {'history': "two ordinary runs, then functions.flags['ts_threshold'] = functions.flags['epoch_threshold'] = %d, then %s with t (resp. constraint) = now + %d" % (thr, kind, dt)},
+                               'expected': str(want), 'observed': str(got), 'how_to_run': './check C16 --replay <this file>'})
     return res
 
 
 def replay(ctx: Ctx, payload) -> bool:
     inp = payload['input']
+    if 'history' in inp:
+        bad = global_threshold_history(impl.functions())
+        print('global-threshold history:', bad[:3] if bad else 'as expected')
+        return not bad
     if 'script' not in inp: return False
     cfg, cache = c06.parse_case(inp['cfg'], inp['cache'])
     o = vmrun.in_big_thread(vmrun.run_impl, cfg, cache, bytes.fromhex(inp['script']))
